@@ -216,6 +216,12 @@ OddManifests == <<
   "schema: '1.2'\ncontents:\n  - !!str {a.fga: b.fga}\n",
   "schema: !!str ['1.2']\ncontents:\n  - a.fga\n",
   "contents: !!seq x.txt\nschema: \"1.2\"\n" >>
+\* schema values a YAML reader resolves to the number 1.2 but which are not the text '1.2': if such a manifest is accepted at all,
+\* "the schema is '1.2'" must still hold of what is returned
+OddSchemas == << "1.2", "1.20", "1.200", "1.2e0", "+1.2", "12e-1", "01.2", "0.12e1", "1.2E+0", "'1.20'", "\"1.2 \"", "!!str 1.2", "!!float '1.2'", "1_2e-1", ".12e1" >>
+OddSchemaInit == st \in 1..Len(OddSchemas)
+OddSchemaNext == st > 0 /\ st' = 0 - st /\ PrintT(ToJson([rec |-> "oddschema", text |-> "schema: " \o OddSchemas[st] \o "\ncontents:\n  - core.fga\n", ok |-> FALSE]))
+OddSchemaOK == TRUE
 OddInit == st \in 1..Len(OddManifests)
 OddNext == st > 0 /\ st' = 0 - st /\ PrintT(ToJson([rec |-> "odd", text |-> OddManifests[st], ok |-> FALSE]))
 OddOK == TRUE
